@@ -1,0 +1,101 @@
+//! Verification hook H5: drive the line editor's state machine without a TTY.
+//! Only compiled with `--cfg lace_verif`.
+
+use std::io;
+
+use super::{Terminal, TerminalHistory};
+use crate::term::Key;
+
+/// Mirror of [`Key`], which lives in a private module.
+#[derive(Debug, Clone, Copy, PartialEq, Eq)]
+pub enum VerifKey {
+    Enter,
+    Backspace,
+    Delete,
+    Left,
+    Right,
+    Up,
+    Down,
+    CtrlLeft,
+    CtrlRight,
+    Char(char),
+}
+
+impl From<VerifKey> for Key {
+    fn from(key: VerifKey) -> Self {
+        match key {
+            VerifKey::Enter => Key::Enter,
+            VerifKey::Backspace => Key::Backspace,
+            VerifKey::Delete => Key::Delete,
+            VerifKey::Left => Key::Left,
+            VerifKey::Right => Key::Right,
+            VerifKey::Up => Key::Up,
+            VerifKey::Down => Key::Down,
+            VerifKey::CtrlLeft => Key::CtrlLeft,
+            VerifKey::CtrlRight => Key::CtrlRight,
+            VerifKey::Char(ch) => Key::Char(ch),
+        }
+    }
+}
+
+/// A [`Terminal`] with a given history list and no history file.
+pub struct VerifTerminal(Terminal);
+
+impl VerifTerminal {
+    pub fn new(history: Vec<String>) -> Self {
+        let index = history.len();
+        Self(Terminal {
+            stderr: io::stderr(),
+            buffer: String::new(),
+            cursor: 0,
+            visible_cursor: 0,
+            history: TerminalHistory {
+                list: history,
+                index,
+                file: None,
+            },
+        })
+    }
+
+    /// What `read_line` does before reading keys.
+    pub fn begin_line(&mut self) {
+        self.0.buffer.clear();
+        self.0.visible_cursor = 0;
+    }
+
+    /// Returns `true` when the line was submitted.
+    pub fn handle_key(&mut self, key: VerifKey) -> bool {
+        self.0.handle_key(key.into())
+    }
+
+    /// What `read_line` does after a line was submitted.
+    pub fn end_line(&mut self) {
+        let terminal = &mut self.0;
+        if terminal
+            .history
+            .list
+            .last()
+            .is_none_or(|previous| previous != &terminal.buffer)
+        {
+            terminal.history.push(terminal.buffer.clone());
+        }
+        terminal.history.index = terminal.history.list.len();
+    }
+
+    /// The line currently shown (history entry or the line being edited).
+    pub fn current(&self) -> &str {
+        self.0.get_current()
+    }
+    pub fn buffer(&self) -> &str {
+        &self.0.buffer
+    }
+    pub fn visible_cursor(&self) -> usize {
+        self.0.visible_cursor
+    }
+    pub fn history_index(&self) -> usize {
+        self.0.history.index
+    }
+    pub fn history(&self) -> &[String] {
+        &self.0.history.list
+    }
+}
